@@ -3,7 +3,7 @@ from .. import gen
 from . import static_common
 
 EXCLUDED = {"const_cond", "sizeof", "hyb_stmtexpr"}
-FEATURES = gen.ALL_FEATURES - EXCLUDED
+FEATURES = gen.STATIC_FEATURES - EXCLUDED
 
 
 def run_check(ctx):
